@@ -453,6 +453,38 @@ func TestC06(t *testing.T) {
 			}
 		}
 	}
+	// Grpc-Message grammar: every string over {'%', a hex digit, a non-hex letter} up to length 5 (6 in
+	// thorough), beside a non-zero status in the headers (trailers-only) and in the trailers
+	{
+		maxLen := 5
+		if thorough {
+			maxLen = 6
+		}
+		msgs := seqsUpTo([]string{"%", "4", "z"}, maxLen)
+		for _, p := range []Proto{PGRPC, PGRPCWeb} {
+			for _, kind := range []Kind{KUnary, KServer} {
+				for _, place := range []string{"h", "t"} {
+					for _, m := range msgs {
+						if len(m) == 0 {
+							continue
+						}
+						idx++
+						if !ev.Mine(idx) {
+							continue
+						}
+						k := c06Case{Proto: p, Kind: kind, Status: 200, CT: "echo", Enc: "-", HStatus: "-", TStatus: "-", Msg: strings.Join(m, ""), Details: "-", Body: "valid", Dev: 2}
+						if place == "h" {
+							k.HStatus, k.Body = "3", "empty"
+						} else {
+							k.TStatus = "3"
+						}
+						c.Case(k.key(), true)
+						Bubble(t, func() { c06Check(c, k) })
+					}
+				}
+			}
+		}
+	}
 	// the peer answers (non-200, or a valid response) after taking exactly k bytes of the request body
 	for _, p := range AllProtos {
 		for _, kind := range AllKinds {
